@@ -1,6 +1,6 @@
 import sys
 from vlib import run
-r = run.run_unit(sys.argv[1], canary=(len(sys.argv)>2 and sys.argv[2]=="canary"))
-print(r["status"], r.get("why"), r["verified"], r["errors"], r["wall"], r.get("canary"))
+r = run.run_unit(sys.argv[1], canary=("canary" in sys.argv[2:]), variant=([a[8:] for a in sys.argv[2:] if a.startswith("variant=")] or [None])[0])
+print(r["status"], r.get("why"), r["verified"], r["errors"], r["wall"], r.get("canary"), "STUBBED:", r.get("stubbed"))
 for f in r["failures"][:12]: print("FAIL", f["message"], f["site_item"], "|", f["clause"], "\n", f["rendered"][:500])
 for f in r["others"][:6]: print("OTHER", f["message"], f["site_item"], "\n", f["rendered"][:700])
